@@ -2,6 +2,7 @@ package conc
 
 import (
 	"context"
+	"encoding/json"
 	"fmt"
 	"sync"
 	"time"
@@ -43,7 +44,8 @@ var refusingIndexes = []struct{ name, expr string }{
 // fail INSIDE its transaction - after the entry point has read the revision, incremented it and filled in its event.
 // One key goes through a random history of every kind of mutating entry point; the verdict on each call is taken from
 // what the call itself returned: an acknowledged mutation raises $document.revid by exactly one (1 on creation) and
-// its live event carries that number; a refused call leaves the revision where it was and posts no event (C17).
+// its live event carries that number; a refused call leaves the revision where it was (C17), leaves the whole
+// read-back of the key as it was (C01) and posts no event (C08, C17).
 // After every call a fence write on another key closes the window in which an event of the call can arrive.
 func RefusedWriteRun(m *MultiBucket, coll, variant, steps int, r *rng.R) (RefusedResult, string, map[string]any) {
 	ix := refusingIndexes[variant%len(refusingIndexes)]
@@ -111,9 +113,10 @@ func RefusedWriteRun(m *MultiBucket, coll, variant, steps int, r *rng.R) (Refuse
 		}
 	}
 
+	var lastObs kv.Obs
 	rev := func() (uint64, bool) {
-		o := kv.ReadBack(col, key)
-		return revOf(&o)
+		lastObs = kv.ReadBack(col, key)
+		return revOf(&lastObs)
 	}
 	curCas := func() uint64 {
 		_, _, cas, err := col.GetWithXattrs(ctx, key, []string{"u"})
@@ -127,6 +130,7 @@ func RefusedWriteRun(m *MultiBucket, coll, variant, steps int, r *rng.R) (Refuse
 	var history []string
 	for i := 1; i <= steps; i++ {
 		pre, preOK := rev()
+		preObs, _ := json.Marshal(lastObs)
 		gb, gx := good(i)
 		bad := r.Intn(3) == 0 // a write that the index will refuse (when it reaches the statement)
 		body := gb
@@ -259,6 +263,10 @@ func RefusedWriteRun(m *MultiBucket, coll, variant, steps int, r *rng.R) (Refuse
 			}
 			if preOK && postOK && pre != post {
 				return res, fmt.Sprintf("refused-bump|%s was refused (%s) but $document.revid went from %d to %d", kind, kv.ErrClass(err), pre, post), detail
+			}
+			if postObs, _ := json.Marshal(lastObs); string(preObs) != string(postObs) {
+				detail["readBackBefore"], detail["readBackAfter"] = json.RawMessage(preObs), json.RawMessage(postObs)
+				return res, fmt.Sprintf("refused-frame|%s was refused (%s) but the key's read-back (body, CAS, expiry, xattrs, virtual xattrs) is not what it was before the call", kind, kv.ErrClass(err)), detail
 			}
 			if len(mine) > 0 {
 				return res, fmt.Sprintf("refused-event|%s was refused (%s), the key stays at revision %d, but a live event with RevNo %d was posted for it", kind, kv.ErrClass(err), post, mine[0].revNo), detail
